@@ -733,6 +733,10 @@ class Malformed(Stream):
             for (nm, _), r in zip(_spec.SQUASH, results):
                 if r.status == 'err' and 'error' in out[nm]:
                     out[nm] = dict(out[nm], error=r.words[0])
+                elif r.status == 'err' and case['why'] == 'no-samples' and nm == 'mean':
+                    # the mean over a recording without samples is not defined by anything C11 says: an implementation may
+                    # refuse it (the current one divides by zero) or return some value (NaN, zeros) - not compared
+                    out[nm] = {'error': r.words[0]}
             a = out.get('again')
             if a is not None and 'error' in a:
                 r = dict(zip([nm for nm, _ in _spec.SQUASH], results)).get(a.get('squash') or out['order'][0].split('/')[-1])
